@@ -70,7 +70,7 @@ def gen_le(rng, tier, seed):
             if not links:
                 continue
             k = rng.randrange(len(links))
-            ops.append([rng.choice(['disc', 'disc', 'disc_both']), list(links[k]), rng.randrange(2)])
+            ops.append([rng.choice(['disc', 'disc', 'disc_both']), list(links[k]), rng.randrange(2), rng.choice([0, 0, 1, 2])])  # last: payloads sent right before
             links.pop(k)
         elif r < 0.80:
             d = rng.randrange(n)
@@ -233,8 +233,8 @@ def run_le(case):
                     break
                 carried += 1
             elif kind in ('disc', 'disc_both'):
-                _, (a, b), side = op
-                if not _disconnect(cx, a, b, side, kind == 'disc_both'):
+                _, (a, b), side = op[:3]
+                if not _disconnect(cx, a, b, side, kind == 'disc_both', op[3] if len(op) > 3 else 0):
                     break
             elif kind == 'cross':
                 if not _cross(cx, op, mode):
@@ -401,13 +401,23 @@ def _send(cx, a, b, side, count, size, conns=None):
     return True
 
 
-def _disconnect(cx, a, b, side, both):
+def _disconnect(cx, a, b, side, both, last_words=0):
     sim, world = cx.sim, cx.world
     key = (a, b) if (a, b) in cx.links else (b, a)
     conns = cx.links.pop(key)
     seen = [[], []]
     for i in (0, 1):
         conns[i].on('disconnection', lambda reason, i=i: seen[i].append(reason))
+    # data handed to the controller right before the disconnection is requested still belongs to the connection
+    cx.rx.clear()
+    said = []
+    for _ in range(last_words if not both else 0):
+        cx.counter += 1
+        p = cx.counter.to_bytes(4, 'big') + b'last words'
+        said.append(p)
+        world[key[side]].host.send_l2cap_pdu(conns[side].handle, TEST_CID, p)
+    if said:
+        sim.probe('data_sent_right_before_disconnect')
     tasks = [sim.loop.create_task(conns[side].disconnect())]
     if both:
         tasks.append(sim.loop.create_task(conns[1 - side].disconnect()))
@@ -434,6 +444,11 @@ def _disconnect(cx, a, b, side, both):
         t = tasks[0]
         if t.exception() is not None:
             sim.violation_once('discexc', f'disconnect-raised:by={who}:{type(t.exception()).__name__}', repr(t.exception()))
+            ok = False
+    if said:
+        got = [p for (nd, h, p) in cx.rx if nd == key[1 - side] and h == conns[1 - side].handle]
+        if got != said:
+            sim.violation_once('lastwords', f'data-sent-before-disconnect-lost:by={who}', f'{len(got)} of {len(said)} payloads sent right before disconnect() reached the peer')
             ok = False
     return ok
 
@@ -573,7 +588,7 @@ def gen_classic(rng, tier, seed):
             if not links:
                 continue
             k = rng.randrange(len(links))
-            ops.append([rng.choice(['disc', 'disc', 'disc_both']), list(links[k]), rng.randrange(2)])
+            ops.append([rng.choice(['disc', 'disc', 'disc_both']), list(links[k]), rng.randrange(2), rng.choice([0, 0, 1, 2])])  # last: payloads sent right before
             links.pop(k)
     return {'n': n, 'profile': rng.choice(PROFILE_NAMES), 'slow': rng.randrange(n), 'ops': ops}
 
@@ -680,8 +695,8 @@ def run_classic(case):
                     break
                 carried += 1
             else:
-                _, (a, b), side = op
-                if not _disconnect(cx, a, b, side, kind == 'disc_both'):
+                _, (a, b), side = op[:3]
+                if not _disconnect(cx, a, b, side, kind == 'disc_both', op[3] if len(op) > 3 else 0):
                     break
             sim.trace.shape(kind, str(op[1]))
         _final_tables(cx)
